@@ -225,6 +225,7 @@ def r3_table(ctx, F):
     release_toggles(ctx, F, "R3-handle-table")
     from rules import c12
     c12.vfs_destroy(ctx, F, "R3-handle-table")
+    c12.configured_toggle_readers(ctx, F, "R3-handle-table")
 
     # directory-position records exist only in opendir mode: where no RELEASEDIR ever arrives (runtime no_opendir, which is not the
     # configured flag: init also sets it when the backend sits below a vfs), nothing would remove them again
